@@ -15,13 +15,10 @@ V = os.path.dirname(os.path.dirname(os.path.abspath(__file__)))
 repo = os.environ.get("VERIF_REPO", "/repo")
 rows = []
 t0 = time.time()
-for d in sorted(glob.glob(os.path.join(V, "seeded", "seeded*-C*"))):
-    mf = os.path.join(d, "meta.json")
-    if not os.path.exists(mf):
-        continue
-    m = json.load(open(mf))
-    if prop not in (m.get("detected_by") or []):
-        continue
+env = dict(os.environ, GOVC_NOREPLAY="1")  # the self-test only asks whether the change is still reported
+
+
+def one(d):
     work = tempfile.mkdtemp(prefix="govc-selftest-", dir="/tmp")
     try:
         subprocess.run(["rsync", "-a", "--exclude", ".git", repo + "/", work + "/repo/"], check=True)
@@ -29,14 +26,26 @@ for d in sorted(glob.glob(os.path.join(V, "seeded", "seeded*-C*"))):
         if r.returncode != 0:
             r = subprocess.run("patch -p1 --fuzz=3 --no-backup-if-mismatch < " + os.path.join(d, "patch.diff"), shell=True, cwd=work + "/repo", capture_output=True, text=True)
         if r.returncode != 0:
-            rows.append({"seed": os.path.basename(d), "status": "patch-does-not-apply-to-this-tree"})
-            continue
-        r = subprocess.run([os.path.join(V, "bin", "govc"), "check", "-prop", prop, "-tier", "quick", "-repo", work + "/repo", "-verif", V, "-out", work + "/out"], capture_output=True, text=True)
+            return {"seed": os.path.basename(d), "status": "patch-does-not-apply-to-this-tree"}
+        r = subprocess.run([os.path.join(V, "bin", "govc"), "check", "-prop", prop, "-tier", "quick", "-repo", work + "/repo", "-verif", V, "-out", work + "/out"], capture_output=True, text=True, env=env)
         viol = [l for l in r.stdout.splitlines() if l.startswith("VIOLATION")]
         first = re.sub(r"replay=\S+ ", "", viol[0])[:160] if viol else ""
-        rows.append({"seed": os.path.basename(d), "status": "caught" if (r.returncode == 1 and viol) else "LOST", "violations": len(viol), "first": first})
+        return {"seed": os.path.basename(d), "status": "caught" if (r.returncode == 1 and viol) else "LOST", "violations": len(viol), "first": first}
     finally:
         shutil.rmtree(work, ignore_errors=True)
+
+
+todo = []
+for d in sorted(glob.glob(os.path.join(V, "seeded", "seeded*-C*"))):
+    mf = os.path.join(d, "meta.json")
+    if not os.path.exists(mf):
+        continue
+    m = json.load(open(mf))
+    if prop in (m.get("detected_by") or []):
+        todo.append(d)
+from concurrent.futures import ThreadPoolExecutor
+with ThreadPoolExecutor(max_workers=3) as ex:
+    rows = list(ex.map(one, todo))
 lost = [r for r in rows if r["status"] == "LOST"]
 for r in rows:
     print(f"selftest {prop}: {r['seed']}: {r['status']}" + (f" ({r.get('violations')} violation lines; {r.get('first')})" if r["status"] == "caught" else ""))
